@@ -141,7 +141,7 @@ spifconf_register_context(spif_charptr_t name, ctx_handler_t handler)
 unsigned char
 spifconf_register_fstate(FILE * fp, spif_charptr_t path, spif_charptr_t outfile, unsigned long line, unsigned char flags)
 {
-    ASSERT_RVAL(!SPIF_PTR_ISNULL(fp), (unsigned char) -1);
+    /* fp may be NULL:  spifconf_parse_line() pushes a state without a stream for a line taken from argv. */
     ASSERT_RVAL(!SPIF_PTR_ISNULL(path), (unsigned char) -1);
 
     if (++fstate_idx == fstate_cnt) {
@@ -936,7 +936,8 @@ spifconf_parse_line(FILE * fp, spif_charptr_t buff)
     ASSERT(buff != NULL);
 
     if (!(*buff) || *buff == '\n' || *buff == '#' || *buff == '<') {
-        SPIFCONF_PARSE_RET();
+        /* Nothing has been pushed yet, so there is nothing to pop. */
+        return;
     }
     if (!fp) {
         file_push(NULL, (spif_charptr_t) "<argv>", NULL, 0, 0);
